@@ -753,6 +753,12 @@ def instDist (rounded : Bool) (I : Instance) : List (List (Nat × Bool)) :=
 
 /-! ## capacity -/
 
+/-- demand 4-tuple a delivery customer with file demand `q` denotes: static delivery -/
+def static4 (q : Int) : Demand4 := ⟨0, 0, q, 0⟩
+
+/-- demand 4-tuple a Li&Lim task with signed file demand `q` denotes: dynamic pickup of `q`, or dynamic delivery of `-q` -/
+def dynamic4 (q : Int) : Demand4 := if q > 0 then ⟨0, q, 0, 0⟩ else ⟨0, 0, 0, -q⟩
+
 /-- load of the vehicle along a tour as the core capacity feature computes it: static deliveries are on board
     from the start, static pickups stay until the end, dynamic amounts change the load where they happen;
     returns the list of loads (at departure and after every stop) -/
@@ -795,6 +801,80 @@ def fileAcceptsDelivery (I : Instance) (tour : List Int) : Option Bool :=
     sum of the signed demands so far is at most the capacity -/
 def fileAcceptsPD (I : Instance) (tour : List Int) : Option Bool :=
   (allSome (tour.map (instDemand I))).map (fun ds => (0 :: prefixSums 0 ds).all (fun l => decide (l ≤ I.capacity)))
+
+/-! ## appending a customer to a tour: capacity and time windows together -/
+
+/-- what a tour needs to know about a stop -/
+structure Stop where
+  id : Int
+  dem : Demand4
+  tws : List TW
+  service : Int
+deriving DecidableEq, Repr
+
+/-- the stops of a dump, in the order of its points (point `k+1` is stop `k`; point 0 is the depot) -/
+def dumpStops (d : Dump) : List Stop := (d.jobs.flatMap (·.subs)).map (fun s => ⟨s.id, s.dem, s.tws, s.dur⟩)
+
+/-- the stops an instance prescribes; `pd`: signed demands are dynamic pickups/deliveries; `off`: file id − job id -/
+def instStops (pd : Bool) (off : Int) (I : Instance) : List Stop :=
+  I.customers.map (fun c => ⟨c.id - off, if pd then dynamic4 c.demand else static4 c.demand, [⟨c.ready, c.due⟩], c.service⟩)
+
+def bLe (t : Int) : Bound → Bool
+  | .fin b => decide (t ≤ b)
+  | .max => true
+
+/-- point index (position + 1) and data of the stop with a given id (first match) -/
+def stopAt (id : Int) : Nat → List Stop → Option (Nat × Stop)
+  | _, [] => none
+  | k, s :: ss => if s.id = id then some (k, s) else stopAt id (k + 1) ss
+
+/-- an integral matrix entry (`none` if the entry is missing or not integral: unrounded mode off the lattice) -/
+def distAt (dist : List (List (Nat × Bool))) (i j : Nat) : Option Int :=
+  match (dist.getD i []).getD j (0, false) with
+  | (n, true) => some n
+  | (_, false) => none
+
+/-- forward schedule along the stops: arrive (in time?), wait for the window to open, serve;
+    returns (every window met, departure time from the last stop, its point) -/
+def runStops (dist : List (List (Nat × Bool))) : Bool → Int → Nat → List (Nat × Stop) → Option (Bool × Int × Nat)
+  | ok, t, p, [] => some (ok, t, p)
+  | ok, t, p, (q, s) :: rest =>
+    match distAt dist p q, s.tws with
+    | some d, [tw] => runStops dist (ok && bLe (t + d) tw.hi) (max (t + d) tw.lo + s.service) q rest
+    | _, _ => none
+
+/-- **is the tour feasible as the file says?** The vehicle leaves the depot when it opens and serves the stops in order:
+    the load never exceeds the capacity, every stop is reached before its window closes (waiting if it is not open yet)
+    and the vehicle is back before the depot closes. (`none`: unknown id, several windows or a non-integral distance.) -/
+def tourOk (cap : Int) (opens : Int) (closes : Bound) (dist : List (List (Nat × Bool))) (stops : List Stop)
+    (tour : List Int) : Option Bool :=
+  match allSome (tour.map (fun id => stopAt id 1 stops)) with
+  | none => none
+  | some ps =>
+    match runStops dist true opens 0 ps with
+    | none => none
+    | some (ok, t, p) =>
+      match distAt dist p 0 with
+      | none => none
+      | some d => some (ok && bLe (t + d) closes && capAccepts cap (ps.map (·.2.dem)))
+
+/-- may `target` be appended to the feasible tour `pre`? (`none` if `pre` is not feasible itself) -/
+def appendOk (cap : Int) (opens : Int) (closes : Bound) (dist : List (List (Nat × Bool))) (stops : List Stop)
+    (pre : List Int) (target : Int) : Option Bool :=
+  match tourOk cap opens closes dist stops pre with
+  | some true => tourOk cap opens closes dist stops (pre ++ [target])
+  | _ => none
+
+def dumpAppendOk (d : Dump) (pre : List Int) (target : Int) : Option Bool :=
+  match d.vehicles with
+  | [] => none
+  | v :: _ =>
+    match v.sE, v.eL with
+    | some (.fin lo), some hi => appendOk v.cap lo hi d.dist (dumpStops d) pre target
+    | _, _ => none
+
+def instAppendOk (rounded pd : Bool) (off : Int) (I : Instance) (pre : List Int) (target : Int) : Option Bool :=
+  appendOk I.capacity I.depotOpen I.depotClose (instDist rounded I) (instStops pd off I) pre target
 
 /-! ## complete solutions -/
 
